@@ -4,14 +4,20 @@ From GV Require Import Model.Store Model.StoreOver Proofs.C12 Proofs.C19.
 Import ListNotations.
 Open Scope Z_scope.
 
-Definition disk_after_over (m : openmode) (pol : policy) (old junk : disk) (p : wpath) (c : coll) (o : outcome) : sres disk :=
+(** the repository's writer (mode w) on a path that held [old]: killed after the calls [done], raised after
+    the calls [done] (the truncating open discarded [old]; the close writes what was done), or completed *)
+Definition disk_after_over (pol : policy) (old junk : disk) (p : wpath) (c : coll) (o : outcome) : sres disk :=
   match o with
-  | Crashed done => SOk (over_disk m pol old junk true done)
+  | Crashed done => SOk (over_disk Truncate pol old junk true done)
+  | Raised done => raised_disk done
   | Completed => closed_disk (dump_ops p c)
   end.
 
 Lemma over_truncate_eq : forall pol old junk done, over_disk Truncate pol old junk true done = crash_disk pol junk done.
 Proof. reflexivity. Qed.
+
+Lemma disk_after_over_eq : forall pol old junk p c o, disk_after_over pol old junk p c o = disk_after pol junk p c o.
+Proof. intros pol old junk p c [done|done|]; reflexivity. Qed.
 
 (** the repository's writer: once it has opened the path, what the path held before is irrelevant --
     every crash point leaves a file that is refused *)
@@ -22,14 +28,21 @@ Lemma C19_overwrite_truncate_l : forall old p c junk done, unparsable junk = tru
    load_file_cur (over_disk Truncate AtClose old junk true done) = SErr ESigFile).
 Proof. intros old p c junk done Hj Hp; rewrite over_truncate_eq; now apply (C19_atclose_l p c). Qed.
 
-Lemma C19_overwrite_complete_l : forall old p c junk o d l, wf_coll c = true -> unparsable junk = true -> outcome_of p c o ->
-  disk_after_over Truncate AtClose old junk p c o = SOk d ->
+(** ... with the marker last: under every durability policy, at every point before the last call *)
+Lemma C19_overwrite_truncate_any_policy_l : forall pol old p c junk done, unparsable junk = true -> strict_prefix done (dump_ops p c) ->
+  load_file (over_disk Truncate pol old junk true done) = SErr ESigFile /\
+  (load_file_cur (over_disk Truncate pol old junk true done) = SErr EOS \/
+   load_file_cur (over_disk Truncate pol old junk true done) = SErr EKey \/
+   load_file_cur (over_disk Truncate pol old junk true done) = SErr ESigFile).
+Proof. intros pol old p c junk done Hj Hp; rewrite over_truncate_eq; now apply (C19_marker_last_any_policy_l pol p c). Qed.
+
+Lemma C19_overwrite_complete_l : forall pol old p c junk o d l, wf_coll c = true -> unparsable junk = true -> outcome_of p c o ->
+  disk_after_over pol old junk p c o = SOk d ->
   (load_file d = SOk l \/ load_file_cur d = SOk l) ->
-  o = Completed /\ l = loaded_of c /\ decode l = SOk c.(c_sigs).
+  all_calls_done p c o /\ l = loaded_of c /\ decode l = SOk c.(c_sigs).
 Proof.
-  intros old p c junk o d l Hwf Hj Ho Hd Hl.
-  apply (C19_complete_l p c junk o d l Hwf Hj Ho); [|exact Hl].
-  destruct o; exact Hd.
+  intros pol old p c junk o d l Hwf Hj Ho Hd Hl; rewrite disk_after_over_eq in Hd.
+  now apply (C19_complete_any_policy_l pol p c junk o d l Hwf Hj Ho).
 Qed.
 
 (** before the writer opens the path nothing changes (the statement of C19 does not speak about this point) *)
@@ -52,7 +65,8 @@ Definition old_disk : disk :=
 
 (** the complete file of [old_coll] is at the path; an in-place writer of [new_coll] dies before its last
     per-signature write: the file LOADS, with the new ids, the old metadata and a mixture of new and old
-    signatures -- neither the requested nor the old collection *)
+    signatures -- neither the requested nor the old collection (the marker it finds is the OLD file's: the order
+    of the new calls does not help an in-place writer) *)
 Lemma C19_overwrite_inplace_refuted_l :
   exists done l,
     wf_coll old_coll = true /\ wf_coll new_coll = true /\
@@ -63,16 +77,17 @@ Lemma C19_overwrite_inplace_refuted_l :
     decode l = SOk [[2; 6]; [7]] /\
     l <> loaded_of new_coll /\ l <> loaded_of old_coll.
 Proof.
-  exists (removelast (dump_ops PerSig new_coll)).
+  exists (removelast (removelast (dump_ops PerSig new_coll))).
   eexists; split; [vm_compute; reflexivity|]; split; [vm_compute; reflexivity|].
   split; [vm_compute; reflexivity|]. split.
-  - exists [OWrite 1 2 3 [9]]; split; [discriminate|vm_compute; reflexivity].
+  - exists [OWrite 1 2 3 [9]; marker_op]; split; [discriminate|vm_compute; reflexivity].
   - split; [vm_compute; reflexivity|].
     split; [vm_compute; reflexivity|]. split; [vm_compute; reflexivity|].
     split; [vm_compute; reflexivity|]. split; vm_compute; discriminate.
 Qed.
 
-(** non-vacuity: the same crash point under the repository's writer is refused *)
+(** non-vacuity: the same crash point under the repository's writer is refused, whatever reaches the disk *)
 Example ex19_over_truncate :
-  load_file (over_disk Truncate AtClose old_disk (DRaw []) true (removelast (dump_ops PerSig new_coll))) = SErr ESigFile.
-Proof. reflexivity. Qed.
+  load_file (over_disk Truncate AtClose old_disk (DRaw []) true (removelast (removelast (dump_ops PerSig new_coll)))) = SErr ESigFile /\
+  load_file (over_disk Truncate Eager old_disk (DRaw []) true (removelast (removelast (dump_ops PerSig new_coll)))) = SErr ESigFile.
+Proof. split; reflexivity. Qed.
